@@ -814,8 +814,21 @@ package tds
 //@ # channel was a DONE with final status; $rxfail = some NextPackage call failed.
 //@ ghost field Channel.$lastFinal bool
 //@ ghost field Channel.$rxfail bool
+//@ # reply script (C08): the i-th package NextPackage handed out on this channel had Go type
+//@ # tag $rxtag[i] and, for LOGINACK / DONE / MSG, the status or message id $rxst[i]
+//@ ghost field Channel.$rxn int
+//@ ghost field Channel.$rxtag [int]int
+//@ ghost field Channel.$rxst [int]int
+//@ pred pkgstatus(p Package) { is(p, *LoginAckPackage) ? as(p, *LoginAckPackage).Status : (is(p, *DonePackage) ? as(p, *DonePackage).Status : (is(p, *MsgPackage) ? as(p, *MsgPackage).MsgId : 0)) }
 //@ func (*Channel).NextPackage returns (pkg, err)
-//@   modifies tdsChan.$lastFinal, tdsChan.$rxfail
+//@   modifies tdsChan.$lastFinal, tdsChan.$rxfail, tdsChan.$rxn, tdsChan.$rxtag, tdsChan.$rxst
+//@   ghost-update at exit: tdsChan.$rxtag := err == nil ? store(tdsChan.$rxtag, tdsChan.$rxn, tag(pkg)) : tdsChan.$rxtag
+//@   ghost-update at exit: tdsChan.$rxst := err == nil ? store(tdsChan.$rxst, tdsChan.$rxn, pkgstatus(pkg)) : tdsChan.$rxst
+//@   ghost-update at exit: tdsChan.$rxn := err == nil ? tdsChan.$rxn + 1 : tdsChan.$rxn
+//@   ensures [script] err == nil ==> tdsChan.$rxn == old(tdsChan.$rxn) + 1 && tdsChan.$rxtag[old(tdsChan.$rxn)] == tag(pkg) && tdsChan.$rxst[old(tdsChan.$rxn)] == pkgstatus(pkg)
+//@   ensures [no-typed-nil] err == nil ==> tag(pkg) == 0 || payload(pkg) != 0
+//@   ensures [parsed] err == nil && tag(pkg) != 0 && !is(pkg, HeaderOnlyPackage) && !(is(pkg, *DonePackage) && !pkg.$parsed) ==> pkg.$parsed && pkg.$ready
+//@   ensures [script-kept] (forall i int :: 0 <= i && i < old(tdsChan.$rxn) ==> tdsChan.$rxtag[i] == old(tdsChan.$rxtag[i]) && tdsChan.$rxst[i] == old(tdsChan.$rxst[i])) && (err != nil ==> tdsChan.$rxn == old(tdsChan.$rxn))
 //@   ghost-update at exit: tdsChan.$lastFinal := err == nil ? (is(pkg, *DonePackage) && as(pkg, *DonePackage).Status == 0) : tdsChan.$lastFinal
 //@   ghost-update at exit: tdsChan.$rxfail := tdsChan.$rxfail || err != nil
 //@   ensures [last-final] err == nil ==> tdsChan.$lastFinal == (is(pkg, *DonePackage) && as(pkg, *DonePackage).Status == 0)
@@ -827,5 +840,32 @@ package tds
 //@ func paramfunc:(*Channel).NextPackageUntil.processPkg returns (ok, err)
 //@   modifies
 //@ func (*Channel).NextPackageUntil returns (pkg, err)
-//@   modifies tdsChan.$lastFinal, tdsChan.$rxfail
+//@   requires [script] 0 <= tdsChan.$rxn
+//@   modifies tdsChan.$lastFinal, tdsChan.$rxfail, tdsChan.$rxn, tdsChan.$rxtag, tdsChan.$rxst
+//@   ensures [script-grows] old(tdsChan.$rxn) <= tdsChan.$rxn && (forall i int :: 0 <= i && i < old(tdsChan.$rxn) ==> tdsChan.$rxtag[i] == old(tdsChan.$rxtag[i]) && tdsChan.$rxst[i] == old(tdsChan.$rxst[i]))
+//@   ensures [returns-last-of-script] err == nil && processPkg != nil ==> tdsChan.$rxn > old(tdsChan.$rxn) && tdsChan.$rxtag[tdsChan.$rxn - 1] == tag(pkg) && tdsChan.$rxst[tdsChan.$rxn - 1] == pkgstatus(pkg)
 //@   ensures [returns-last-received] err == nil && processPkg != nil ==> tdsChan.$lastFinal == (is(pkg, *DonePackage) && as(pkg, *DonePackage).Status == 0)
+
+//@ # ---------------------------------------------------------------------
+//@ # Login (C08): success only for a valid acceptance script
+//@ pred enc4(e TDSMsgId) { e == TDS_MSG_SEC_ENCRYPT4 }
+//@ pred plainflow(e TDSMsgId) { !(e == TDS_MSG_SEC_ENCRYPT || e == TDS_MSG_SEC_ENCRYPT2 || e == TDS_MSG_SEC_ENCRYPT3 || e == TDS_MSG_SEC_ENCRYPT4) }
+//@ # the acknowledgement filter of the encrypted flow accepts exactly LOGINACK(SUCCEED)
+//@ func (*Channel).Login$1 returns (ok, err)
+//@   modifies
+//@   ensures [accepts-only-success-ack] ok ==> err == nil && is(pkg, *LoginAckPackage) && as(pkg, *LoginAckPackage).Status == TDS_LOG_SUCCEED
+//@   ensures [rejects-other-ack] is(pkg, *LoginAckPackage) && as(pkg, *LoginAckPackage).Status != TDS_LOG_SUCCEED ==> err != nil
+//@ func (*Channel).Login returns (err)
+//@   requires [ctx] nonnil(ctx)
+//@   requires [dsn] config != nil ==> config.DSN != nil
+//@   requires [script] 0 <= tdsChan.$rxn
+//@   ensures [plain-accept] err == nil && old(plainflow(config.Encrypt)) ==> tdsChan.$rxn == old(tdsChan.$rxn) + 2 && tdsChan.$rxtag[old(tdsChan.$rxn)] == typetag(*LoginAckPackage) && tdsChan.$rxst[old(tdsChan.$rxn)] == TDS_LOG_SUCCEED && tdsChan.$rxtag[old(tdsChan.$rxn) + 1] == typetag(*DonePackage)
+//@   ensures [plain-final-done] err == nil && old(plainflow(config.Encrypt)) ==> tdsChan.$rxst[old(tdsChan.$rxn) + 1] == TDS_DONE_FINAL
+//@   ensures [unsupported-methods-rejected] old(config.Encrypt == TDS_MSG_SEC_ENCRYPT || config.Encrypt == TDS_MSG_SEC_ENCRYPT2 || config.Encrypt == TDS_MSG_SEC_ENCRYPT3) ==> err != nil
+//@   ensures [negotiation] err == nil && old(enc4(config.Encrypt)) ==> tdsChan.$rxn >= old(tdsChan.$rxn) + 8 && tdsChan.$rxtag[old(tdsChan.$rxn)] == typetag(*LoginAckPackage) && tdsChan.$rxst[old(tdsChan.$rxn)] == TDS_LOG_NEGOTIATE && tdsChan.$rxtag[old(tdsChan.$rxn) + 1] == typetag(*MsgPackage) && tdsChan.$rxst[old(tdsChan.$rxn) + 1] == TDS_MSG_SEC_ENCRYPT4 && tdsChan.$rxtag[old(tdsChan.$rxn) + 2] == typetag(*ParamFmtPackage) && tdsChan.$rxtag[old(tdsChan.$rxn) + 3] == typetag(*ParamsPackage) && tdsChan.$rxtag[old(tdsChan.$rxn) + 4] == typetag(*DonePackage)
+//@   ensures [acceptance] err == nil && old(enc4(config.Encrypt)) ==> tdsChan.$rxtag[tdsChan.$rxn - 2] == typetag(*CapabilityPackage) && tdsChan.$rxtag[tdsChan.$rxn - 1] == typetag(*DonePackage)
+//@   ensures [final-done] err == nil && old(enc4(config.Encrypt)) ==> tdsChan.$rxst[tdsChan.$rxn - 1] == TDS_DONE_FINAL
+//@ # what travels through a channel's package queue: no typed nil pointers, and every package
+//@ # except header-only notifications and the synthetic final DONE was parsed completely
+//@ chaninv Channel.packageCh [no-typed-nil] tag(v) == 0 || payload(v) != 0
+//@ chaninv Channel.packageCh [parsed] tag(v) != 0 && !is(v, HeaderOnlyPackage) && !(is(v, *DonePackage) && !v.$parsed) ==> v.$parsed && v.$ready
